@@ -710,3 +710,84 @@ fn roles_replay() {
         println!("OBSERVED: {}", bad.join("; "));
     }
 }
+
+// ---------------------------------------------------------------------------------------------
+// E3e' replay (C19): boxes owned by SHADOWED self-recursive definitions are reclaimed.  400 generations of a
+// self-recursive global that owns a box with a Drop-counting host value, then churn so that every free box slot is
+// handed out again.
+mod recycle_probe {
+    use std::sync::atomic::{AtomicUsize, Ordering};
+    pub static DROPPED: AtomicUsize = AtomicUsize::new(0);
+    pub struct Probe;
+    impl steel::rvals::Custom for Probe {}
+    impl Drop for Probe {
+        fn drop(&mut self) {
+            DROPPED.fetch_add(1, Ordering::SeqCst);
+        }
+    }
+}
+
+#[test]
+fn recycle_roots_replay() {
+    use std::sync::atomic::Ordering;
+    let mut e = Engine::new();
+    e.register_fn("make-probe", || recycle_probe::Probe);
+    e.run("(define (churn n) (if (= n 0) 'done (begin (box n) (churn (- n 1)))))".to_string()).unwrap();
+    const GENERATIONS: usize = 400;
+    for _ in 0..GENERATIONS {
+        e.run("(define node (let ((cell (box (make-probe)))) (lambda (n) (if (= n 0) (unbox cell) (node (- n 1)))))) (node 3)".to_string()).unwrap();
+    }
+    e.run("(churn 150000)".to_string()).unwrap();
+    let dropped = recycle_probe::DROPPED.load(Ordering::SeqCst);
+    if dropped < GENERATIONS / 8 {
+        println!("OBSERVED: after {} shadowed generations of a self-recursive definition that owns a box, only {} of the boxes' contents were ever released", GENERATIONS, dropped);
+    } else {
+        println!("COMPLETED: {} of {} shadowed generations released", dropped, GENERATIONS);
+    }
+}
+
+// ---------------------------------------------------------------------------------------------
+// E3m replay (C10): the specialised opcodes against the generic path.  `(op x N)` with x a local and N a literal
+// (ADDIMMEDIATE / SUBIMMEDIATE / LTEIMMEDIATE, LTEIMMEDIATEIF inside an `if`), and `(op x y)` with two locals (the
+// REGISTER / BINOP forms), against the same operation applied through a variable bound to the procedure (`(define plus +)`),
+// for probe operands of every number kind.
+#[test]
+fn oparm_replay() {
+    let probes = ["5/2", "1/2", "-1/2", "7/3", "(expt 10 30)", "(- (expt 10 30))", "(/ 1 (expt 10 30))", "1.5", "2.0", "-0.5", "2", "3", "0", "-1",
+                  "9223372036854775807", "-9223372036854775808"];
+    let r = std::panic::catch_unwind(|| {
+        let mut engine = Engine::new();
+        let mut eval = |src: String| -> Result<String, String> {
+            engine.run(src).map(|vals| vals.last().map(|v| v.to_string()).unwrap_or_default()).map_err(|e| e.to_string())
+        };
+        let _ = eval("(define plus +) (define minus -) (define lte <=)".to_string());
+        let mut bad = Vec::new();
+        for n in ["2", "0", "1", "3"] {
+            let _ = eval(format!(
+                "(define (f-add x) (+ x {n})) (define (f-sub x) (- x {n})) (define (f-lte x) (<= x {n})) (define (f-if x) (if (<= x {n}) 'yes 'no)) \
+                 (define (g-add x) (plus x {n})) (define (g-sub x) (minus x {n})) (define (g-lte x) (lte x {n})) (define (g-if x) (if (lte x {n}) 'yes 'no)) \
+                 (define (r-add x y) (+ x y)) (define (r-sub x y) (- x y)) (define (r-lte x y) (<= x y)) \
+                 (define (s-add x y) (plus x y)) (define (s-sub x y) (minus x y)) (define (s-lte x y) (lte x y))", n = n));
+            for p in probes.iter() {
+                for (a, b) in [("f-add", "g-add"), ("f-sub", "g-sub"), ("f-lte", "g-lte"), ("f-if", "g-if")] {
+                    let (x, y) = (eval(format!("({} {})", a, p)), eval(format!("({} {})", b, p)));
+                    if x != y {
+                        bad.push(format!("({} {}) with the literal {} => {:?}; through the generic procedure => {:?}", &a[2..], p, n, x, y));
+                    }
+                }
+                for (a, b) in [("r-add", "s-add"), ("r-sub", "s-sub"), ("r-lte", "s-lte")] {
+                    let (x, y) = (eval(format!("({} {} {})", a, p, n)), eval(format!("({} {} {})", b, p, n)));
+                    if x != y {
+                        bad.push(format!("({} {} {}) on two locals => {:?}; through the generic procedure => {:?}", &a[2..], p, n, x, y));
+                    }
+                }
+            }
+        }
+        bad
+    });
+    match r {
+        Ok(bad) if bad.is_empty() => println!("COMPLETED: specialised and generic forms agree on every probe"),
+        Ok(bad) => println!("OBSERVED: {} difference(s), e.g. {}", bad.len(), bad.iter().take(3).cloned().collect::<Vec<_>>().join("; ")),
+        Err(_) => println!("OBSERVED: a specialised arithmetic form panicked in the host"),
+    }
+}
